@@ -32,7 +32,27 @@ CONTRACT(PRE___sexy_to_daisy(sx), POST___sexy_to_daisy(RV, sx));
 static inline dt_ssexy_t __to_unix_epoch(struct dt_dt_s dt)
 CONTRACT(PRE___to_unix_epoch(dt), POST___to_unix_epoch(RV, dt));
 
+
+/* ---- C20: fully specified input never consults the clock; with a base set, the base alone determines the fill-in */
+struct dt_dt_s UNREACH_dt_datetime(dt_dttyp_t outtyp) UNREACH_CONTRACT;
+#define STRPDT_EQ(a, b) \
+	((a).sd.y == (b).sd.y && (a).sd.m == (b).sd.m && (a).sd.d == (b).sd.d && (a).sd.c == (b).sd.c && (a).sd.w == (b).sd.w && (a).sd.b == (b).sd.b && \
+	 (a).sd.q == (b).sd.q && (a).sd.flags.u == (b).sd.flags.u && (a).st.h == (b).st.h && (a).st.m == (b).st.m && (a).st.s == (b).st.s && (a).st.ns == (b).st.ns && \
+	 (a).st.flags.u == (b).st.flags.u && (a).i == (b).i && (a).zdiff == (b).zdiff && (a).zngvn == (b).zngvn)
+/* a parsed value that carries a year is handed on unchanged and dt_get_base() (hence the clock) is never reached:
+ * the group replaces dt_get_base by a requires(false) contract */
+static struct strpdt_s massage_strpdt(struct strpdt_s d)
+VERIF_CONTRACT(__CPROVER_requires(d.sd.y != 0) __CPROVER_ensures(STRPDT_EQ(__CPROVER_return_value, d)) __CPROVER_assigns());
 #endif /* VERIF_TU_DT_CORE */
+#if defined VERIF_TU_DT_CORE
+/* once a base is set (dt_set_base, --base), dt_get_base returns exactly it, does not modify it and never calls dt_datetime()
+ * (time(), gettimeofday()); `base' is havocked by the contract instrumentation, so this holds for every earlier history */
+struct dt_dt_s dt_get_base(void)
+VERIF_CONTRACT(__CPROVER_requires(base.typ != DT_UNK)
+	__CPROVER_ensures(__CPROVER_return_value.d.u == base.d.u && __CPROVER_return_value.typ == base.typ && __CPROVER_return_value.t.hms.u == base.t.hms.u &&
+		__CPROVER_return_value.sandwich == base.sandwich && base.typ != DT_UNK)
+	__CPROVER_assigns());
+#endif
 /* adding hours / minutes / seconds to a sandwich */
 #define HMS_UNIT(t) ((t) == DT_DURH ? 3600LL : (t) == DT_DURM ? 60LL : 1LL)
 #define PRE_dt_dtadd_hms(d, dur) \
